@@ -271,6 +271,9 @@ def guarded_run(prop, case):
             # an earlier connection in the same process precedes every simulated execution of this case
             from . import build
             simnet.CASE_PRELUDE = build.prelude(spec)
+        if isinstance(case, dict) and case.get("copts_noise"):
+            # connect() options that should make no difference to this property (the scenario's own ones win)
+            simnet.CASE_COPTS = dict(case["copts_noise"])
         cspec = case.get("companion") if isinstance(case, dict) else None
         if cspec:
             # a second live connection in the same process accompanies every simulated execution of this case
@@ -291,6 +294,7 @@ def guarded_run(prop, case):
     finally:
         simnet.CASE_PRELUDE = None
         simnet.CASE_COMPANION = None
+        simnet.CASE_COPTS = None
         signal.alarm(0)
 
 
